@@ -116,6 +116,12 @@ pub trait IVP {
     /// where `dim` is the length of `y`. The user can fill the matrix via Index/IndexMut,
     /// e.g., `m[(row, col)] = value`.
     fn mass(&self, m: &mut Matrix) {
-        Matrix::identity(m.nrows());
+        // `m` arrives zero-initialised in the storage the solver was configured with.
+        // Identity storage already denotes I; otherwise write the unit diagonal.
+        if !matches!(m.storage, MatrixStorage::Identity) {
+            for i in 0..m.nrows() {
+                m[(i, i)] = 1.0;
+            }
+        }
     }
 }
